@@ -37,7 +37,7 @@ COMPONENTS = {
     "real": ["DefaultRealizationFilter (cvar-*)", "EnsembleEvaluator", "config validation", "plan steps", "estimators"],
     "stub": ["SimEvaluator", "sim/scripted optimizer", "sim/inject sampler"],
 }
-PROBES = ["rows_compared", "ordered_compared", "pn_within_ulp_of_integer", "all_failed", "lower_bounded_constraint",
+PROBES = ["ranking_entries_checked", "rows_compared", "ordered_compared", "pn_within_ulp_of_integer", "all_failed", "lower_bounded_constraint",
           "equality_constraint", "upper_bounded_constraint", "objective_flavour", "constraint_flavour", "some_failed",
           "tail_mean_compared", "gradient_result_rows"]
 
@@ -120,6 +120,13 @@ def execute(scn: dict) -> dict:
         if ln.call is None or ln.rows is None:
             continue
         tm = oracles.tm_for(ctx, cfg)
+        if ln.is_function:
+            msg = oracles.ranking_entries_inactive(ctx, cfg, ln.call)
+            if msg is not None:
+                probe("ranking_entry_inactive")
+                viol.append({"clause": "ranked-entry-flagged-inactive", "sig": {}, "detail": msg})
+            else:
+                probe("ranking_entries_checked")
         nr = model.cfg_counts(cfg)["nr"]
         if ln.is_function:
             fcall, frows = ln.call, ln.rows
